@@ -803,6 +803,63 @@ PROPS["C12"] = dict(
 )
 
 
+# ---------------------------------------------------------------------------- C10
+RESIGNED_MUST_REFUSE = ("resigned:m:neg", "resigned:y:jacobiminus", "resigned:type:claimsnizk", "resigned:nizk:")
+
+
+def pred_c10(line, st):
+    """Rabin keys, judged on the real library's verdicts (independent of the Lean model).  Tags:
+    honest / equiv:* / short:* (the library's variable-length key ids, by design) must be accepted,
+    mut:* / cheat:* / guard:* must be refused; resigned:* (key altered AND re-signed by its holder) are
+    judged individually: only the listed ones are ill-formed keys."""
+    op, a, r = toks(line)
+    if op != "prop.rabin":
+        return None
+    kind = a[0]
+    t = tag_of(a)
+    good = t == "honest" or t.startswith(("equiv:", "short:"))
+    bad = t.startswith(("mut:", "cheat:", "guard:")) or t.startswith(RESIGNED_MUST_REFUSE)
+    if kind == "sign":
+        st["sign"] = st.get("sign", 0) + 1
+        return None if r[0] == "1" else "signature made with the secret key does not verify under the matching public key (%s)" % " ".join(a[1:])
+    if kind == "verify":
+        st["verify"] = st.get("verify", 0) + 1
+        if good and r[0] != "1":
+            return "verify refused a %s signature" % t
+        if bad and r[0] != "0":
+            return "verify accepted an altered signature / other data / other key (%s)" % t
+        return None
+    if kind == "decrypt":
+        st["decrypt"] = st.get("decrypt", 0) + 1
+        exp = [x for x in a if x.startswith("expect=")][0][7:]
+        if good and r[0] != exp:
+            return "decrypt returned %s for a %s ciphertext of %s" % (r[0][:20], t, exp[:20])
+        if bad and r[0] != "reject":
+            return "decrypt accepted an altered ciphertext (%s)" % t
+        return None
+    if kind == "check":
+        st["check"] = st.get("check", 0) + 1
+        if good and r[0] != "1":
+            return "key validation refused a %s key" % t
+        if bad and r[0] == "1":
+            return "key validation accepted an ill-formed key (%s)" % t
+        return None
+    if kind == "roundtrip":
+        v = [x for x in a if x.startswith("value=")][0][6:]
+        return None if r[0] == v else "decryption returned %s, encrypted was %s" % (r[0][:20], v[:20])
+    if kind in ("secretkey.check", "secretkey.verify"):
+        return None if r[0] == "1" else "%s failed on a generated key" % kind
+    if kind in ("sqrtmp", "sqrtmn"):
+        # residues=N => ok_r=N ok_det=N [...]: every residue's root squared back, for every routine
+        n = [x for x in a if x.startswith("residues=")]
+        if n:
+            for x in r:
+                if x.startswith("ok") and x.split("=")[1] != n[0][9:]:
+                    return "square roots modulo %s: %s of %s residues squared back" % (a[1], x, n[0][9:])
+        return None
+    return None
+
+
 # ---------------------------------------------------------------------------- C14
 def pred_c14(line, st):
     op, a, r = toks(line)
@@ -873,6 +930,25 @@ def pred_c14(line, st):
     return None
 
 
+PROPS["C10"] = dict(
+    module="TmcgProps.C10",
+    areas=[("rabin", {"quick": 8, "thorough": 40}, ["--sqrt-primes", "400"], "san")],
+    obligations=[("Tmcg.C10." + n, "full") for n in (
+        "sqrtmp_sq_all", "sqrtmnR_sq", "sqrtmnFastAll_sq", "precompute_ok", "verify_sign", "verify_neg_root", "verify_accepts_iff",
+        "verify_accepted_square'", "verify_same_pad", "verify_data_collision", "verify_keyid", "decrypt_encrypt", "decrypt_accepts_iff",
+        "decrypt_accepted", "decrypt_unique_ciphertext", "decrypt_same_encoding", "check_stage_counts", "check_refuses_short_proof",
+        "check_refuses_nonpositive_modulus", "toyKey_blum", "toyKey_pre", "toyKey_keyid")],
+    predicate=pred_c10,
+    level_text="Theorems in Lean 4 about models of sign/verify (PRab), encrypt/decrypt (SAEP), the square-root routines (all three branches mod p, CRT mod n, all four roots), the key-id functions and the decision logic of "
+               "key validation, with the hash functions as arbitrary parameters: signatures verify for every Blum key, data and coins; exact acceptance conditions of verify and decrypt, from which: the negated root is the only other "
+               "accepted value with the same padding, altered data is accepted only on an explicit hash collision, a foreign key id is refused, a ciphertext is determined by the root it opens through; decrypt(encrypt v) = v; "
+               "key validation refuses shortened NIZK stages and non-positive moduli. Correspondence: keys from the real constructor (424..832 bits, one NIZK key), every field of key/signature/ciphertext text mutated, "
+               "exhaustive square roots for small primes; model recomputes every library call with the logged hash answers. Partial: key generation and the NIZK prover are not modelled.",
+    level_note=LEVEL_NOTE + " tmcg_h/tmcg_g are oracle parameters (answers logged from the real functions); mpz_probab_prime_p is an oracle answer per line.",
+    assumptions=["hash functions are parameters: tamper evidence for altered data is stated as a reduction to an explicit collision",
+                 "decrypt_encrypt assumes: modulus bit length not a multiple of 8, encoded value a unit mod m, no redundancy collision of g among the other three roots",
+                 "partial: key generation and NIZK proof generation not modelled; variable-length key ids (suffixes) are accepted by design"],
+)
 PROPS["C14"] = dict(
     module="TmcgProps.C14",
     areas=[("rbc", {"quick": 24, "thorough": 1500}, [], "san")],
